@@ -225,6 +225,9 @@ class Component( ComponentLevel7 ):
     # the value/method nets.
     connection_pairs = []
     for (x, y) in provided_connections:
+      # x is also a name if both ends belong to the replaced component
+      if isinstance( x, str ):
+        x = eval(x)
       connection_pairs.append( x )
       connection_pairs.append( eval(y) )
       if not top._dsl._has_pending_value_connections and isinstance( x, Signal ):
@@ -414,6 +417,11 @@ class Component( ComponentLevel7 ):
             # other must be in the dict
             if other not in removed_connectables:
               parent._dsl.adjacency[other].remove( x )
+            elif other in parent._dsl.adjacency:
+              # The parent connected two ports of the removed component.
+              # We need to save both ends by name (other's entry is still
+              # there, so this connection has not been saved yet).
+              saved_connections.append( ("top"+repr(other)[1:], "top"+repr(x)[1:]) )
           del parent._dsl.adjacency[x]
 
       # The constants connected inside the removed component are keys of
